@@ -785,7 +785,7 @@ func (p *Plan) advance(d time.Duration) bool {
 	}
 	t := time.NewTimer(d)
 	defer t.Stop()
-	Arm("virtual time advance")
+	Arm("virtual time advance (the bubble's clock stands still: a goroutine waits for a lock, e.g. a second Close in sync.Once behind a Close that does not return)")
 	defer Disarm()
 	select {
 	case <-t.C:
